@@ -9,5 +9,5 @@ func (S) M() *int { return nil }
 var G I = S{}
 
 func F() int {
-	return *G.M() //KNOWN:F41-b2
+	return *G.M() //REPORT
 }
